@@ -25,6 +25,7 @@ type sendMsg struct {
 	compressed bool
 	size       int
 	op         byte
+	bare       bool  // written after a Reset that was not followed by SetExtensions
 	ops        []int // per chunk: 0 Write, 1 WriteThrough (if buffer empty) , 2 Write+FlushFragment
 }
 
@@ -119,13 +120,19 @@ func subSend() mon.Sub {
 					}
 				} else {
 					w.Reset(dst, st, ws.OpCode(m.op))
-					switch other {
-					case 0:
-						w.SetExtensions(ms)
-					case 1:
-						w.SetExtensions(rsv3, ms)
-					case 2:
-						w.SetExtensions(ms, rsv3)
+					// one Reset in four is for a connection without extensions: nothing is attached again,
+					// and nothing of what was attached before may show
+					if c.Rng.Intn(4) == 0 {
+						msgs[len(msgs)-1].bare = true
+					} else {
+						switch other {
+						case 0:
+							w.SetExtensions(ms)
+						case 1:
+							w.SetExtensions(rsv3, ms)
+						case 2:
+							w.SetExtensions(ms, rsv3)
+						}
 					}
 				}
 				// write in chunks with mixed operations
@@ -206,6 +213,9 @@ func subSend() mon.Sub {
 				}
 				if other != 0 {
 					wantRsv |= 1
+				}
+				if m.bare {
+					wantRsv = 0 // written after a Reset with no extension attached again
 				}
 				det["frame"] = fmt.Sprintf("message %d frame %d: op=%x fin=%v rsv=%d len=%d", mi, nfr, f.H.Op, f.H.Fin, f.H.Rsv, len(f.Payload))
 				if f.H.Rsv != wantRsv {
